@@ -93,6 +93,15 @@ Theorem C05_wellformed_b_ok : forall h,
   (stamped_b h = true <-> Stamped h) /\ (distinct_b h = true <-> DistinctStamps h).
 Proof. intros h. split; [apply stamped_b_ok|apply distinct_b_ok]. Qed.
 
+(* a recording that starts with the queue holding q0 (the tiny segment-crossing runs: q0 is what a checked sequential
+   prefix left in the queue): putting q0 in front as sequential enqueues stamped before every recorded call turns
+   "linearizable from q0" into "linearizable from the empty queue", which is what CLin decides *)
+Theorem C05_prefix_encoding : forall t q0 h,
+  0 <= t -> (forall e, In e h -> t + 2 * Z.of_nat (length q0) < Aspects.inv e /\ Aspects.inv e <= Aspects.resp e) ->
+  (linearizable (list Z) (op Z) (out Z) fifo_step [] (map to_op (pre_events t q0 ++ h)) <->
+   linearizable (list Z) (op Z) (out Z) fifo_step q0 (map to_op h)).
+Proof. exact prefix_encoding. Qed.
+
 (* non-vacuity: a ring of 2 entries crossing two segment boundaries; a history meeting the conditions
    and histories violating each of them *)
 Example C05_nonvacuous :
@@ -160,3 +169,4 @@ Print Assumptions C05_lin_aspects.
 Print Assumptions C05_lin_check_ok.
 Print Assumptions C05_checkers_agree.
 Print Assumptions C05_wellformed_b_ok.
+Print Assumptions C05_prefix_encoding.
